@@ -330,6 +330,8 @@ def classify(mnem, intent):
             return ("reject", "range: immediate does not fit {} bits".format(w))
         want = ("imm", w, v & ((1 << w) - 1))
         return ("valid", lambda rec: None if rec["key"] == want else "decodes to {} not {}".format(rec["key"], want))
+    if f in ("addr", "ext", "extind") and isinstance(v, int) and -32768 <= v < 0:
+        v = v & 0xFFFF          # a negative address is the 16-bit two's complement address it stands for
     if f in ("addr", "dir", "ext"):
         if "DIR" not in modes and "EXT" not in modes:
             return ("reject", "mode: no direct/extended form")
